@@ -2,6 +2,7 @@
 import ZnVerif.Ops.Sexp
 import ZnVerif.Ops.FloatNum
 import ZnVerif.Model.Interp
+import ZnVerif.Spec.Sem
 
 namespace ZnVerif.Ops.Run
 open ZnVerif ZnVerif.Ops ZnVerif.Model
@@ -82,12 +83,50 @@ def runAst (fuel : Nat) (sexp : String) (inputs : List String) : String :=
     | .fuel => "fuel"
     | .unmodelled => "unmodelled"
 
+partial def canonS (objs : Array (String × List (String × Spec.SVal Float))) (v : Spec.SVal Float) : String :=
+  match v with
+  | .num x => "n:" ++ floatBits x
+  | .str s => "s:" ++ stringToHex s
+  | .bool b => if b then "b:1" else "b:0"
+  | .null => "null"
+  | .list xs => "[" ++ ",".intercalate (xs.map (canonS objs)) ++ "]"
+  | .dict kvs => "{" ++ ",".intercalate (kvs.map fun kv => stringToHex kv.1 ++ "=" ++ canonS objs kv.2) ++ "}"
+  | .obj id => match objs[id]? with | some (c, _) => "obj:" ++ stringToHex c | none => "obj:?"
+  | .fn _ | .builtinFn _ => "fn"
+  | .cls name => "cls:" ++ stringToHex name
+  | .exc msg => "exc:" ++ stringToHex msg
+  | .fault code => "exc:" ++ stringToHex ("‹rt:" ++ toString code ++ "›")
+
+def specInput (c : String × Cell Float) : String × Spec.SVal Float :=
+  (c.1, match c.2 with
+    | .num x => .num x
+    | .str s => .str s
+    | .bool b => .bool b
+    | _ => .null)
+
+def specRunAst (fuel : Nat) (sexp : String) (inputs : List String) : String :=
+  match sxParse (sxTokens sexp) >>= sxProgram with
+  | none => "bad-ast"
+  | some prog =>
+    let ins := (inputs.filterMap parseInput).map specInput
+    let (r, st) := Spec.runProgram fuel prog ins {}
+    let tr := traceField st.out
+    match r with
+    | .ok v | .ret v => "ok " ++ canonS st.objs v ++ " | " ++ tr
+    | .raise _ | .brk | .cont => "err | " ++ tr
+    | .fatal c => "fatal " ++ toString c ++ " | " ++ tr
+    | .unspecified => "unspecified"
+    | .fuel => "fuel"
+
 /-- runast <n-inputs> <input…> <sexp tokens…> -/
 def handle (op : String) (args : List String) : Option String :=
   match op, args with
   | "runast", n :: rest =>
     let k := n.toNat!
     some (runAst fuelDefault (" ".intercalate (rest.drop k)) (rest.take k))
+  | "spec:runast", n :: rest =>
+    let k := n.toNat!
+    some (specRunAst fuelDefault (" ".intercalate (rest.drop k)) (rest.take k))
   | _, _ => none
 
 end ZnVerif.Ops.Run
